@@ -134,12 +134,13 @@ func (fr *Frame) call(instr ssa.Instruction, cc *ssa.CallCommon, pos token.Pos) 
 				}
 				goal := Implies(fr.cur, ctx.with(vars).Bool(aa.Clause.E))
 				fr.R.addObl("assert", aa.Callee+":"+aa.Clause.Label, goal, aa.Clause.Src, &aa.Clause, pos)
+				fr.R.addCover("assert-"+aa.Clause.Label+"-reachable", fr.cur)
 			}
 		}
 	}
 	res := fr.dispatchCall(instr, cc, pos, names)
-	// call log
-	if c := fr.R.Contract; c != nil {
+	// call log: calls made by the unit's own code (its body and the function literals nested in it)
+	if c := fr.R.Contract; c != nil && fr.isUnitCode() {
 		for _, tr := range c.Tracks {
 			if nameMatches(names, tr.Callee) {
 				cond := True
@@ -585,7 +586,7 @@ func (fr *Frame) canInline(fn *ssa.Function, bindings []Val) bool {
 func (fr *Frame) inlineCall(fn *ssa.Function, args []Val, bindings []Val, pos token.Pos) Val {
 	fr.R.Inlined[fr.R.fnShort(fn)] = true
 	fr.R.frameN++
-	nf := &Frame{R: fr.R, Fn: fn, env: map[ssa.Value]Val{}, depth: fr.depth + 1, names: map[string]Val{}, nameTys: map[string]types.Type{}, id: fr.R.frameN, loopsUsed: map[int]bool{}}
+	nf := &Frame{R: fr.R, Fn: fn, env: map[ssa.Value]Val{}, depth: fr.depth + 1, names: map[string]Val{}, nameTys: map[string]types.Type{}, id: fr.R.frameN, loopsUsed: map[int]bool{}, parent: fr}
 	for i, p := range fn.Params {
 		if i < len(args) {
 			nf.env[p] = args[i]
@@ -799,6 +800,10 @@ func (fr *Frame) applyContractVars(c *Contract, fn *ssa.Function, cc *ssa.CallCo
 		post.results = results
 	}
 	for _, en := range c.Ensures {
+		if clauseIsInternal(c, en.E, 0) {
+			// speaks about the callee's own call log / locals / snapshots: meaningless (and unsound to assume) at a call site
+			continue
+		}
 		if t, ok := post.tryBool(en.E); ok {
 			fr.assume(t)
 		} else {
@@ -980,7 +985,7 @@ func (c *EvalCtx) heapCompNames(spec string) []string {
 func (c *EvalCtx) tryBool(e Expr) (t Term, ok bool) {
 	defer func() {
 		if x := recover(); x != nil {
-			if u, isU := x.(unsupportedErr); isU && (strings.Contains(u.msg, "no such tracked call") || strings.Contains(u.msg, "no local ")) {
+			if u, isU := x.(unsupportedErr); isU && (strings.Contains(u.msg, "no such tracked call") || strings.Contains(u.msg, "no local ") || strings.Contains(u.msg, "no snapshot ")) {
 				ok = false
 				return
 			}
@@ -1185,4 +1190,63 @@ func (fr *Frame) entryTop() Term {
 		return fr.R.topFrame.entry.top
 	}
 	return IntLit(0)
+}
+
+// clauseIsInternal: the clause mentions the unit's internal call log, ghost variables, locals or snapshots.
+func clauseIsInternal(c *Contract, e Expr, depth int) bool {
+	if depth > 8 {
+		return true
+	}
+	switch e := e.(type) {
+	case EIdent:
+		for _, gv := range c.GhostVars {
+			if gv.Name == e.Name {
+				return true
+			}
+		}
+		for _, g := range c.Ghosts {
+			if g.Name == e.Name {
+				return clauseIsInternal(c, g.E, depth+1)
+			}
+		}
+		return false
+	case EUn:
+		return clauseIsInternal(c, e.X, depth)
+	case EBin:
+		return clauseIsInternal(c, e.X, depth) || clauseIsInternal(c, e.Y, depth)
+	case ECall:
+		switch e.Fun {
+		case "calls", "callResult", "callArg", "lastResult", "at", "local", "held":
+			return true
+		}
+		for _, a := range e.Args {
+			if clauseIsInternal(c, a, depth) {
+				return true
+			}
+		}
+	case ESel:
+		return clauseIsInternal(c, e.X, depth)
+	case EIndex:
+		return clauseIsInternal(c, e.X, depth) || clauseIsInternal(c, e.I, depth)
+	case ESlice:
+		return clauseIsInternal(c, e.X, depth) || (e.Lo != nil && clauseIsInternal(c, e.Lo, depth)) || (e.Hi != nil && clauseIsInternal(c, e.Hi, depth))
+	case ECond:
+		return clauseIsInternal(c, e.C, depth) || clauseIsInternal(c, e.A, depth) || clauseIsInternal(c, e.B, depth)
+	case EQuant:
+		return clauseIsInternal(c, e.Body, depth)
+	case ETypeAssert:
+		return clauseIsInternal(c, e.X, depth)
+	}
+	return false
+}
+
+// isUnitCode: this frame executes the unit under verification, its action literal, or a function literal nested in them.
+func (fr *Frame) isUnitCode() bool {
+	r := fr.R
+	for f := fr.Fn; f != nil; f = f.Parent() {
+		if f == r.Fn || (r.action != nil && f == r.action) {
+			return true
+		}
+	}
+	return false
 }
